@@ -236,7 +236,7 @@ def run_shard(tier, seed, shard, nshards, res):
                 cl = gen.pick(rng, [1, 2, 10])
             limit = gen.pick(rng, [48, 100, 200, 400, 0 if rng.random() < 0.3 else 64]) * 1024
             if kind == 'fanout':
-                limit = gen.pick(rng, [160, 240, 400]) * 1024
+                limit = gen.pick(rng, [160, 240, 400, 0 if rng.random() < 0.5 else 96]) * 1024
             cfg = {'eviction_policy': pol, 'cull_limit': cl, 'size_limit': limit, 'disk_min_file_size': T,
                    'statistics': rng.random() < 0.2}
             history(dc, sc, res, rng, kind, cfg, 'c09 seed=%d shard=%d i=%d' % (seed, shard, i))
